@@ -1122,6 +1122,8 @@ class WcParse(Generic[AnyStr]):
             if c == '[':
                 last_posix = self._handle_posix(i, result, end_range)
                 if last_posix:
+                    # A POSIX class cannot end a range (the hyphen before it was made a literal)
+                    end_range = 0
                     c = next(i)
                     continue
 
